@@ -90,7 +90,9 @@ impl SimCtx {
         SimCtx {
             in_sim: false,
             steps: 0,
-            max_steps: 200_000,
+            // only a guard against a library loop that keeps passing seams; real stalls are the
+            // watchdog's business. Long recipes on four threads legitimately pass > 10^6 seams.
+            max_steps: 50_000_000,
             log: None,
             sched_hash: 0,
             obs_hash: 0,
